@@ -17,7 +17,7 @@ STR_BASIC = ["'s'", '"t"']
 STR_RICH = ["''", '"a"', "'a\"b'", '"\\n\\t\\\\\\"\\/\\x41é"', "'\\0'",
             "'a\\\nb'", "'a\\\r\nb'", '"a\\\u2028b"', "'\\u0041'",
             "'\x0c\x0b'", '"\x85\x1c"', "'\x1d\x1e'",
-            "'a\\\nb\\\nc'", '"\\\r\n\\\r\\\n"', "'x\\\u2029\\\u2028y'"]
+            "'a\\\rb'", "'a\\\nb\\\nc'", '"\\\r\n\\\r\\\n"', "'x\\\u2029\\\u2028y'"]
 REGEX_BASIC = ['/re/', '/a/g']
 REGEX_RICH = ['/re/', '/a\\/b/g', '/[/]/', '/=/', '/ /', '/\\s+/gim', '/a/i']
 
@@ -37,7 +37,7 @@ GAP_BREAK = {'lf': '\n', 'cr': '\r', 'crlf': '\r\n', 'ls': '\u2028',
              'lfcmt': '\n/*c*/ ', 'cmt_lf': ' /*c*/\n', 'lflf': '\n\n',
              'ffcmt': ' /*\x0c\x85*/\n', 'vtline': ' //\x0b\x1c\n',
              'cmt3': ' /* a\n b\r\n c */ ', 'cmt2lf': ' /*\n\n*/ ',
-             'cmtlsps': ' /*\u2028\u2029*/ '}
+             'cmtlsps': ' /*\u2028\u2029*/ ', 'cmtcr': ' /*\r*/ '}
 
 
 def spell(tok, k, pools):
